@@ -9,6 +9,12 @@ CMDKEY = ('sstr', 'CMD')
 def live_alts(st, v, assume=None):
     """concrete alternatives of a (possibly nested) Choice that are compatible with the path decisions, with the
     extra assumptions {key: allowed values} and with the guards of the enclosing alternatives"""
+    if assume:
+        # an assumption the path has already decided the other way leaves nothing alive
+        for k, allowed in assume.items():
+            cur = st.dom.get(k)
+            if cur is not None and not (cur & allowed):
+                return []
     if not isinstance(v, Choice):
         return [v]
     out = []
@@ -176,15 +182,37 @@ def template_letters(skel):
     return re.findall(r'(?<![A-Za-z])([A-Za-z])\{', skel)
 
 
+def consistent(st, assume):
+    """False when the path has already decided one of the assumed keys the other way"""
+    for k, allowed in (assume or {}).items():
+        d = st.dom.get(k)
+        if d is not None and not (d & allowed):
+            return False
+    return True
+
+
 def exact_tracking(f, gcode):
     """[(function, construct, message)] when, after a G0/G1 that carries a numeric word for an axis, the tracked native
     position is not the one a firmware reaches: logical*unit + offset + homeOffset in absolute positioning,
     current + logical*unit in relative positioning (whatever the region tests answered)"""
     out = []
-    if gcode not in ('G0', 'G1') or ('ExcludeRegionState', 'processLinearMoves') not in f.calls:
+    if gcode not in ('G0', 'G1'):
         return out
     from .poly import Poly
-    for axis, letter in (('X_AXIS', 'X'), ('Y_AXIS', 'Y'), ('Z_AXIS', 'Z')):
+    where = 'ExcludeRegionState.isAnyPointExcluded' if ('ExcludeRegionState', 'processLinearMoves') in f.calls \
+        else 'GcodeHandlers._handle_G0'
+    # the feed rate register: F word times the feed-rate unit factor; untouched without a (valued) F word
+    fkey = ('param', CMDKEY, 'F')
+    for status, want in ((frozenset(['V']), Poly.sym('p:F') * Poly.sym(S_OID + '.feedRateUnitMultiplier')),
+                         (frozenset(['A', 'F']), Poly.sym(S_OID + '.feedRate'))):
+        if not (f.pstatus('F') & status):
+            continue
+        for v in f.final(S_OID, 'feedRate', {fkey: status}):
+            if isinstance(v, Num) and v.p != want:
+                out.append((where, '%s feed rate tracked wrongly (%s F word)' % (gcode, 'with' if 'V' in status else 'without'),
+                            'after the command the tracked feed rate is %r; the firmware\'s is %r' % (v.p, want)))
+                break
+    for axis, letter in (('X_AXIS', 'X'), ('Y_AXIS', 'Y'), ('Z_AXIS', 'Z'), ('E_AXIS', 'E')):
         if 'V' not in f.pstatus(letter):
             continue
         aoid = '%s.position.%s' % (S_OID, axis)
@@ -193,9 +221,11 @@ def exact_tracking(f, gcode):
         for mode in (True, False):
             want = w + (Poly.sym(aoid + '.offset') + Poly.sym(aoid + '.homeOffset') if mode else Poly.sym(aoid + '.current'))
             assume = {key: frozenset(['V']), ('fld', aoid, 'absoluteMode'): frozenset([mode])}
+            if not consistent(f.st, assume):
+                continue
             for v in f.final(aoid, 'current', assume):
                 if isinstance(v, Num) and v.p != want:
-                    out.append(('ExcludeRegionState.isAnyPointExcluded',
+                    out.append((where,
                                 '%s %s tracked at the wrong place (%s positioning)' % (gcode, letter, 'absolute' if mode else 'relative'),
                                 'after the move the tracked %s is %r; the printer is at %r' % (letter, v.p, want)))
                     break
@@ -205,7 +235,7 @@ def exact_tracking(f, gcode):
 def tracking_violations(f, gcode, I):
     """[(function, construct, message)] when the tracked X/Y/Z does not follow the move on this path"""
     out = []
-    if ('ExcludeRegionState', 'processLinearMoves') not in f.calls:
+    if ('ExcludeRegionState', 'processLinearMoves') not in f.calls and gcode not in ('G0', 'G1'):
         return out
     for axis, letter in (('X_AXIS', 'X'), ('Y_AXIS', 'Y'), ('Z_AXIS', 'Z')):
         aoid = '%s.position.%s' % (S_OID, axis)
